@@ -6,6 +6,8 @@ import OvniModel.Lemmas.BayTotal
 import OvniModel.Lemmas.BayTopo
 import OvniModel.Lemmas.CoreBayView
 import OvniModel.Lemmas.CoreBayTotal
+import OvniModel.Lemmas.CoreBayFresh
+import OvniModel.Lemmas.EmitEmu
 
 /-!
 # C06 — view consistency: the tracking muxes compute `thView` / `cpuView`
@@ -860,6 +862,211 @@ theorem emu_run_driver (threads : List (Int × Int × Nat)) (cpus : List (Nat ×
   obtain ⟨bF, hr, hsF, hshF, hiF⟩ := emu_run hookSim_none (hookSim_mark tab) threads cpus enabled lint
     (markExtra tab) evs hc hnt hchars hinit h
   exact ⟨_, bF, hc, hr, hsF, hshF, hiF⟩
+
+/-! ### The emit phase: what the PRV callbacks write, and `View.records`
+
+Model: `Emu/Emit.lean` (`prv_register` table `Shape.regs`, `emit` = `emitOne`,
+`Bay.propagateP` = `bay_propagate` with the emit callbacks).  `lvs` = the
+`last_value`s of the registrations, `tvs` = what every Paraver row shows (value
+of its last line, 0 before the first).  `EmitInv regs lvs tvs b`: both are
+consistent with the registered channels of the clean bay `b`.  `fresh c`: the
+`th_running` channel of CPU `c` has not been written since `emu_connect`;
+`cpuViewC fresh …` is `cpuView`, except that a fresh CPU shows null on a channel
+with a mux default (`FreshInv`: those tracks are still virgin, every other mux is
+in sync).  `viewRecordsC old new fo fn` = the model rows of `records` with
+`cpuViewC`; `viewRecords` = `viewRecordsC` without fresh CPUs
+(`viewRecordsC_false`); `records` = `sysRecords` + `viewRecords`
+(`records_split`). -/
+
+/-- A fresh CPU stays fresh while the handlers do not write its `th_running`. -/
+def freshE (fresh : Nat → Bool) (e' : Emu) : Nat → Bool :=
+  fun c => fresh c && !(match e'.cpus[c]? with
+    | some x => x.chThrun.dirty
+    | none => false)
+
+/-- The CPU track of (c, k, i): where it is, and what it shows when in sync. -/
+theorem emu_cpu_track {e : Emu} {b0 b : Bay} (hc : e.shape.connect = .ok b0) (hs : Shaped e)
+    (hi : Inv b0 e b) {c k i : Nat} {x : Cpu} {m : ModelSpec}
+    (hx : e.cpus[c]? = some x) (hk : e.specs[k]? = some m) (hil : i < m.nch) :
+    ∃ (mi : Nat) (mx : Mux), b.muxes[mi]? = some mx ∧ mx.sel = e.shape.idx (.run c) ∧
+      mx.out = e.shape.cpuOut c k i ∧ mx.dflt = m.cpuDflt i ∧ b.chan mx.sel = x.chThrun ∧
+      (b.MuxSync false mi mx → (b.chan (e.shape.cpuOut c k i)).cur = cpuView e x m i) := by
+  have hcl : c < e.cpus.length := (List.getElem?_eq_some_iff.mp hx).1
+  obtain ⟨mi, mx, hm, rfl⟩ := hi.cpuMux hc hcl hk hil
+  have hsel : b.chan (e.shape.idx (.run c)) = x.chThrun := by
+    have hsrc : e.src (.run c) = some x.chThrun := by simp only [Emu.src, hx, Option.map_some]
+    exact Bay.chan_of_getElem? (hi.mirrors _ _ hsrc)
+  refine ⟨mi, _, hm, rfl, rfl, rfl, hsel, ?_⟩
+  intro hsync
+  refine track_cpu_cpuView (rs := e.shape.rawsOf k i) e x m i ⟨rfl, rfl, rfl⟩ hsync (by rw [hsel])
+    (by simp [Shape.rawsOf, Emu.shape]) ?_ rfl
+  intro g t ht
+  obtain ⟨cs, hcs, hmch, hlen⟩ := hs.getChans ht hk
+  refine ⟨cs, hcs, ?_⟩
+  have : (e.shape.rawsOf k i).getD g 0 = e.shape.idx (.raw g k i) := by
+    have hg : g < e.threads.length := (List.getElem?_eq_some_iff.mp ht).1
+    simp only [Shape.rawsOf, List.getD_eq_getElem?_getD, List.getElem?_map]
+    rw [List.getElem?_range (show g < e.shape.nT from hg)]; rfl
+  rw [this, hi.raw_cur ht hmch (by rw [hlen]; exact hil)]
+
+/-- **emu_cpu_rows, exact.**  With the ghost `fresh` (`FreshInv`), the output
+    of EVERY CPU track is `cpuViewC (fresh c)`: `cpuView`, or null on a track with
+    a mux default whose CPU never had its `th_running` written. -/
+theorem emu_cpu_rows_fresh {e : Emu} {b0 b : Bay} {fresh : Nat → Bool} (hc : e.shape.connect = .ok b0)
+    (hs : Shaped e) (hi : Inv b0 e b) (hf : FreshInv e.shape b fresh) {c k i : Nat} {x : Cpu} {m : ModelSpec}
+    (hx : e.cpus[c]? = some x) (hk : e.specs[k]? = some m) (hil : i < m.nch) :
+    (b.chan (e.shape.cpuOut c k i)).cur = cpuViewC (fresh c) e x m i := by
+  have hcl : c < e.shape.nC := (List.getElem?_eq_some_iff.mp hx).1
+  obtain ⟨mi, mx, hm, hsel, hout, hd, _, hview⟩ := emu_cpu_track hc hs hi hx hk hil
+  by_cases hfr : e.shape.isFresh fresh mx
+  · obtain ⟨hdn, c', hcl', hsel', hfc⟩ := hfr
+    have hcc : c' = c := by
+      have := e.shape.idx_inj ((e.shape.mem_run c').mpr hcl') ((e.shape.mem_run c).mpr hcl)
+        (hsel'.symm.trans hsel)
+      cases this; rfl
+    subst hcc
+    have hnull := ((hf mi mx hm).1 ⟨hdn, c', hcl', hsel', hfc⟩).2.1
+    rw [hout] at hnull
+    rw [hnull, cpuViewC, if_pos ⟨hfc, hd ▸ hdn⟩]
+  · rw [hview ((hf mi mx hm).2 hfr), cpuViewC, if_neg]
+    rintro ⟨h1, h2⟩
+    exact hfr ⟨hd ▸ h2, c, hcl, hsel, h1⟩
+
+theorem cpuViewC_flushAll (f : Bool) (e : Emu) (c : Cpu) (m : ModelSpec) (i : Nat) :
+    cpuViewC f e.flushAll { c with chNrun := c.chNrun.flush, chPid := c.chPid.flush, chTid := c.chTid.flush,
+                                   chThrun := c.chThrun.flush, chThact := c.chThact.flush } m i =
+      cpuViewC f e c m i := by
+  unfold cpuViewC; rw [cpuView_flushAll]
+
+/-- A fresh CPU has no running thread: `cpuView` shows the mux default. -/
+theorem fresh_cpuView {e : Emu} {b0 b : Bay} {fresh : Nat → Bool} (hc : e.shape.connect = .ok b0)
+    (hs : Shaped e) (hi : Inv b0 e b) (hf : FreshInv e.shape b fresh) {c k i : Nat} {x : Cpu} {m : ModelSpec}
+    (hx : e.cpus[c]? = some x) (hk : e.specs[k]? = some m) (hil : i < m.nch) (hfc : fresh c = true)
+    (hd : m.cpuDflt i ≠ .null) : cpuView e x m i = m.cpuDflt i := by
+  have hcl : c < e.shape.nC := (List.getElem?_eq_some_iff.mp hx).1
+  obtain ⟨mi, mx, hm, hsel, _, hdf, hch, _⟩ := emu_cpu_track hc hs hi hx hk hil
+  have hnull := ((hf mi mx hm).1 ⟨hdf ▸ hd, c, hcl, hsel, hfc⟩).1
+  rw [hch] at hnull
+  unfold cpuView cpuSelected
+  rw [hnull]; rfl
+
+/-- **emit_step (any simulated step).**  `e → e'` by channel operations the bay
+    can replay (`Sim`: an event's handlers, or the connect-time writes).  From
+    `Inv`, `FreshInv` and `EmitInv`:
+
+    * the bay step of `emu_event` (writes `b → b1`, `bay_propagate` to `bF`, `Inv`
+      again) and `FreshInv` for `freshE fresh e'`;
+    * `bay_propagate` WITH the PRV callbacks (`Bay.propagateP`) fails iff
+      `viewRecordsC e e'` fails — the only error is "forbidden value 0";
+    * otherwise it ends in the same `bF`; its lines `L` (dirty-list order) are a
+      permutation of a list `Lr` (row order of `records`) whose *effective* lines
+      — those that change what their row shows — are exactly `viewRecordsC e e'`;
+      the other lines of `L` repeat the value their row already shows (first
+      emission of a null, `PRV_EMITDUP`, non-null `PRV_SKIPDUPNULL` duplicates);
+    * `EmitInv` holds again with the rows updated by `L`;
+    * when `viewRecords e e'` (the model part of `records`) succeeds and the mux
+      defaults are legal values, `viewRecordsC e e'` succeeds too. -/
+theorem emit_step {e e' : Emu} {b0 b : Bay} {fresh : Nat → Bool} {lvs : List (Option Value)} {tvs : List Int}
+    (hc : e.shape.connect = .ok b0) (hs : Shaped e) (hi : Inv b0 e b) (hf : FreshInv e.shape b fresh)
+    (hE : EmitInv e.shape.regs lvs tvs b) (hfl : SpecFlagsOk e.specs) (hsim : Sim e e') :
+    ∃ b1 bF em, Bay.Writes (· < e.shape.L) b b1 ∧ Mirrors e' b1 ∧ b1.propagate = .ok (bF, em) ∧
+      Shaped e'.flushAll ∧ e'.flushAll.shape = e.shape ∧ Inv b0 e'.flushAll bF ∧
+      FreshInv e.shape bF (freshE fresh e') ∧
+      ((∃ x, viewRecordsC e e' fresh (freshE fresh e') = .error x) ↔
+        (∃ y, b1.propagateP e.shape.regs lvs = .error y)) ∧
+      (∀ y, b1.propagateP e.shape.regs lvs = .error y → y = .prvZero) ∧
+      (∀ vr, viewRecordsC e e' fresh (freshE fresh e') = .ok vr →
+        ∃ lvs' L Lr, b1.propagateP e.shape.regs lvs = .ok (bF, lvs', L) ∧ L.Perm Lr ∧
+          vr = (Lr.filter (effective tvs)).map (·.2) ∧ EmitInv e.shape.regs lvs' (tvStep tvs L) bF) ∧
+      (CpuDfltOk e.specs → ∀ v, viewRecords e e' = .ok v →
+        ∃ vr, viewRecordsC e e' fresh (freshE fresh e') = .ok vr) := by
+  obtain ⟨hs', hshape', _⟩ := hsim hs
+  obtain ⟨hsF, hshF, b1, bF, em, hwP, hm1, _, hp, hinv⟩ := hi.step hc hs hsim
+  have hw : Bay.Writes (· < e.shape.L) b b1 := hwP.mono (fun _ h => Shape.okP_lt h)
+  have hspecs' : e'.specs = e.specs := congrArg Shape.specs hshape'
+  -- the ghost after the event
+  have hfF : FreshInv e.shape bF (freshE fresh e') := by
+    refine (hf.step hc hi hw hp).congr ?_
+    intro c hcl
+    have hcl' : c < e'.cpus.length := by
+      have : e'.cpus.length = e.cpus.length := congrArg Shape.nC hshape'
+      rw [this]; exact hcl
+    have hx' : e'.cpus[c]? = some e'.cpus[c] := List.getElem?_eq_getElem hcl'
+    have hsrc : e'.src (.run c) = some e'.cpus[c].chThrun := by simp only [Emu.src, hx', Option.map_some]
+    have := Bay.chan_of_getElem? (hm1 _ _ hsrc)
+    rw [hshape'] at this
+    simp only [Shape.freshStep, freshE, this, hx']
+  have hcF : e'.flushAll.shape.connect = .ok b0 := by rw [hshF]; exact hc
+  have hspecsF : e'.flushAll.specs = e.specs := congrArg Shape.specs hshF
+  -- the registered channels before and after
+  have hthO : ∀ (g k i : Nat) (t : Thread) (ms : ModelSpec), e.threads[g]? = some t → e.specs[k]? = some ms →
+      i < ms.nch → (b.chan (e.shape.thOut g k i)).cur = thView t ms i :=
+    fun g k i t ms ht hk hil => emu_thread_rows hc hs hi ht hk hil
+  have hcpO : ∀ (c k i : Nat) (x : Cpu) (ms : ModelSpec), e.cpus[c]? = some x → e.specs[k]? = some ms →
+      i < ms.nch → (b.chan (e.shape.cpuOut c k i)).cur = cpuViewC (fresh c) e x ms i :=
+    fun c k i x ms hx hk hil => emu_cpu_rows_fresh hc hs hi hf hx hk hil
+  have hthN : ∀ (g k i : Nat) (t : Thread) (ms : ModelSpec), e'.threads[g]? = some t → e.specs[k]? = some ms →
+      i < ms.nch → (bF.chan (e.shape.thOut g k i)).cur = thView t ms i := by
+    intro g k i t' ms ht' hk hil
+    have htF : e'.flushAll.threads[g]? = some
+        { t' with chCpu := t'.chCpu.flush, chTid := t'.chTid.flush, chState := t'.chState.flush,
+                  mch := t'.mch.map fun x => (x.1, x.2.map Chan.flush) } := by
+      simp only [Emu.flushAll, List.getElem?_map, ht', Option.map_some]
+    have := emu_thread_rows hcF hsF hinv htF (hspecsF ▸ hk) hil
+    rw [hshF, thView_flush] at this
+    exact this
+  have hcpN : ∀ (c k i : Nat) (x : Cpu) (ms : ModelSpec), e'.cpus[c]? = some x → e.specs[k]? = some ms →
+      i < ms.nch → (bF.chan (e.shape.cpuOut c k i)).cur = cpuViewC (freshE fresh e' c) e' x ms i := by
+    intro cg k i x' ms hx' hk hil
+    have hxF : e'.flushAll.cpus[cg]? = some
+        { x' with chNrun := x'.chNrun.flush, chPid := x'.chPid.flush, chTid := x'.chTid.flush,
+                  chThrun := x'.chThrun.flush, chThact := x'.chThact.flush } := by
+      simp only [Emu.flushAll, List.getElem?_map, hx', Option.map_some]
+    have := emu_cpu_rows_fresh hcF hsF hinv (hshF.symm ▸ hfF) hxF (hspecsF ▸ hk) hil
+    rw [hshF, cpuViewC_flushAll] at this
+    exact this
+  have heq : b.viewRecs e.shape.regs bF = viewRecordsC e e' fresh (freshE fresh e') :=
+    viewRecs_eq_viewRecordsC hs' hshape' hthO hthN hcpO hcpN
+  obtain ⟨h1, h2, h3⟩ := Bay.emit_step hi.wf hw hp hE (Shape.regs_flags hfl)
+  rw [heq] at h1 h3
+  refine ⟨b1, bF, em, hw, hm1, hp, hsF, hshF, hinv, hfF, h1, h2, h3, ?_⟩
+  intro hd v hv
+  refine viewRecordsC_ok ?_ (hspecs' ▸ hd) hv
+  intro x' hx' hfc ms hms i hil hdn
+  obtain ⟨cg, hcg⟩ := List.mem_iff_getElem?.mp hx'
+  have hgi : x'.gindex = cg := hs'.cpuIdx cg x' hcg
+  have hcl : cg < e.cpus.length := by
+    have : e'.cpus.length = e.cpus.length := congrArg Shape.nC hshape'
+    rw [← this]; exact (List.getElem?_eq_some_iff.mp hcg).1
+  have hx : e.cpus[cg]? = some e.cpus[cg] := List.getElem?_eq_getElem hcl
+  have hxo : e.cpus.getD x'.gindex x' = e.cpus[cg] := by
+    rw [hgi]; simp [List.getD_eq_getElem?_getD, List.getElem?_eq_getElem hcl]
+  rw [hspecs'] at hms
+  obtain ⟨k, hk⟩ := List.mem_iff_getElem?.mp hms
+  rw [hxo]
+  exact fresh_cpuView hc hs hi hf hx hk hil (hgi ▸ hfc) hdn
+
+/-- **emu_event with the emit phase** (`emit_step` for the handlers of one
+    accepted event).  `emu_event` gives the values of all rows after the event;
+    this adds what `bay_propagate`'s emit callbacks write. -/
+theorem emu_event_emit {e e' : Emu} {b0 b : Bay} {ti mc c v : Nat} {p : List Nat}
+    {th mh : Emu → Nat → Nat → Nat → List Nat → Except Err Emu} (hth : HookSim th) (hmh : HookSim mh)
+    {fresh : Nat → Bool} {lvs : List (Option Value)} {tvs : List Int}
+    (hc : e.shape.connect = .ok b0) (hs : Shaped e) (hi : Inv b0 e b) (hf : FreshInv e.shape b fresh)
+    (hE : EmitInv e.shape.regs lvs tvs b) (hfl : SpecFlagsOk e.specs)
+    (h : modelEvent e ti mc c v p th mh = .ok e') :
+    ∃ b1 bF em, Bay.Writes (· < e.shape.L) b b1 ∧ Mirrors e' b1 ∧ b1.propagate = .ok (bF, em) ∧
+      Shaped e'.flushAll ∧ e'.flushAll.shape = e.shape ∧ Inv b0 e'.flushAll bF ∧
+      FreshInv e.shape bF (freshE fresh e') ∧
+      ((∃ x, viewRecordsC e e' fresh (freshE fresh e') = .error x) ↔
+        (∃ y, b1.propagateP e.shape.regs lvs = .error y)) ∧
+      (∀ y, b1.propagateP e.shape.regs lvs = .error y → y = .prvZero) ∧
+      (∀ vr, viewRecordsC e e' fresh (freshE fresh e') = .ok vr →
+        ∃ lvs' L Lr, b1.propagateP e.shape.regs lvs = .ok (bF, lvs', L) ∧ L.Perm Lr ∧
+          vr = (Lr.filter (effective tvs)).map (·.2) ∧ EmitInv e.shape.regs lvs' (tvStep tvs L) bF) ∧
+      (CpuDfltOk e.specs → ∀ v, viewRecords e e' = .ok v →
+        ∃ vr, viewRecordsC e e' fresh (freshE fresh e') = .ok vr) :=
+  emit_step hc hs hi hf hE hfl (Sim.modelEvent hth hmh h)
 
 /-
 -- OPEN (what is left of the last composition step).
